@@ -14,6 +14,8 @@ TRUSTED = ['rustc MIR', 'the Frobenius algebra and degrees named in the property
 
 def run(ctx, rep):
     facts = ctx.facts()
+    import fixtures
+    fixtures.run_controls(rep, ['E1'], lambda: ctx.reload())
     rep.rule('E9', e9_relations.__doc__.strip().split('\n')[0])
     rep.rule('E8', 'CobComp::euler_num / deg formulas')
     e9_relations.run(facts, rep, parts=('R1', 'R4'))
